@@ -45,20 +45,21 @@ def src_digest(repo, feats):
     return h.hexdigest()[:20]
 
 
-def ensure_facts(feats="", repo=None):
+def ensure_facts(feats="", repo=None, tag=None):
     """Extract (or reuse, keyed by a digest of the working tree) the fact file for a feature
     configuration of the crate at `repo`."""
     repo = repo or REPO
     os.makedirs(CACHE, exist_ok=True)
     dig = src_digest(repo, feats)
-    out = os.path.join(CACHE, "facts-%s-%s.json" % (feats or "default", dig))
-    lockp = os.path.join(CACHE, "lock-%s" % (feats or "default"))
+    tag = tag or feats or "default"
+    out = os.path.join(CACHE, "facts-%s-%s.json" % (tag, dig))
+    lockp = os.path.join(CACHE, "lock-%s" % tag)
     with open(lockp, "w") as lk:
         fcntl.flock(lk, fcntl.LOCK_EX)
         if not os.path.exists(out):
             # drop older fact files of this configuration
             for f in os.listdir(CACHE):
-                if f.startswith("facts-%s-" % (feats or "default")):
+                if f.startswith("facts-%s-" % tag):
                     try:
                         os.remove(os.path.join(CACHE, f))
                     except OSError:
@@ -66,7 +67,8 @@ def ensure_facts(feats="", repo=None):
             cmd = [os.path.join(VERIF, "bin/extract"), repo, out]
             if feats:
                 cmd.append(feats)
-            r = subprocess.run(cmd, capture_output=True, text=True)
+            env = dict(os.environ, MTSA_TARGET_DIR=os.path.join(CACHE, "target-%s" % tag))
+            r = subprocess.run(cmd, capture_output=True, text=True, env=env)
             if r.returncode != 0 or not os.path.exists(out):
                 sys.stdout.write(r.stdout)
                 sys.stderr.write(r.stderr)
